@@ -40,7 +40,7 @@ func init() {
 			if tier == "quick" {
 				return 24
 			}
-			return 120
+			return 360
 		},
 		Batch:            2,
 		Workers:          3,
